@@ -14,6 +14,7 @@
     claim                                         -> ok | violated   (did the reply to the last operation satisfy the
                                                      retention-aware durable-map claim `claimR` of Spec/BlockStoreMap.lean?)
     lost                                          -> lost <i> …      (ghost FS.lost, sorted)
+    names                                         -> names dat<i> … old<i> …   (data files present, sorted by i)
     senc <bytes>                                  -> ok <bytes>
     sdec <bytes>                                  -> ok <bytes> | err
 -/
@@ -88,6 +89,9 @@ def stepLine0 (s : State) (toks : List String) : State × String :=
     match i.toNat? with
     | some i => (s, match AL.get s.fs.olds i with | some b => s!"ok {Hex.encode b}" | none => "none")
     | none => (s, "bad-op")
+  | ["names"] =>
+    (s, " ".intercalate ("names" :: (sortFiles s.fs.dats).map (fun (i, _) => s!"dat{i}")
+      ++ (sortFiles s.fs.olds).map (fun (i, _) => s!"old{i}")))
   | ["pos"] => (s, s!"pos {s.maxidxfilepos} {s.maxdatfilepos} {s.maxdatfileidx} {s.queue.length} {s.cache.length}")
   | ["senc", b] =>
     match Hex.decode b with
@@ -105,7 +109,7 @@ def stepLine0 (s : State) (toks : List String) : State × String :=
       (s', outStr o)
 
 /-- the driver also runs the durable-map specification next to the model and evaluates the retention-aware claim
-    (`claimR`) on every operation's reply: `store_refines_map_retention_statement` (OPEN in Props/C16.lean) on this history -/
+    (`claimR`) on every operation's reply: the conclusion of `store_refines_map` (Props/C16.lean) on this history -/
 structure OSt where
   s : State := init
   sp : Spec := {}
